@@ -149,3 +149,28 @@ Definition accept_diff (x : list (string * list Z)) : list string :=
     end) canonical.
 Definition accept_agrees (x : list (string * list Z)) : bool :=
   match accept_diff x with [] => true | _ => false end.
+
+(* the method table measured on the source: (class name, [(method, body shape)]) *)
+Definition mshape_eqb (a b : mshape) : bool :=
+  match a, b with
+  | MInit0D, MInit0D | MInitSpectroscopic, MInitSpectroscopic | MInitBolometer, MInitBolometer
+  | MGetitem0D, MGetitem0D | MGetitemBolometer, MGetitemBolometer | MLen0D, MLen0D | MLenBolometer, MLenBolometer
+  | MIterBolometer, MIterBolometer | MAdd0D, MAdd0D | MAddAlias, MAddAlias | MAddBolometer, MAddBolometer
+  | MObserve0D, MObserve0D | MObserveBolometer, MObserveBolometer | MAbsent, MAbsent => true
+  | _, _ => false          (* MCustom equals nothing, not even itself *)
+  end.
+
+Definition methods_eqb (a b : list (string * mshape)) : bool :=
+  forallb2 (fun x y => String.eqb (fst x) (fst y) && mshape_eqb (snd x) (snd y)) a b.
+
+Definition methods_diff (x : list (string * list (string * mshape))) : list (string * list (string * mshape)) :=
+  flat_map (fun c =>
+    match find (fun cd => String.eqb (fst cd) (c_name c)) x with
+    | Some cd => if methods_eqb (snd cd) (methods_of c) then []
+                 else [(c_name c, filter (fun m => negb (existsb (fun w => String.eqb (fst m) (fst w) && mshape_eqb (snd m) (snd w))
+                                                                  (methods_of c))) (snd cd))]
+    | None => [(c_name c, [])]
+    end) canonical.
+
+Definition methods_agree (x : list (string * list (string * mshape))) : bool :=
+  Nat.eqb (List.length x) (List.length canonical) && match methods_diff x with [] => true | _ => false end.
